@@ -41,6 +41,11 @@ def run(ck, F, tier):
     except Exception as e:
         ck.unanalysable('M7', str(e))
     mech['M7'] = len([o for o in ck.obligations if o['status'] == 'violation']) == before
+    # the level arrays are indexed by (position, blocks per line) handed over by decode_next_picture: the reviewed sites of inverse_rle / idct_channel that rest on
+    # "the macroblock index is below the count" also need the call sites to pass the strides the arrays were sized with (C02's rule D, re-run here)
+    from . import c02
+    from ..report import Scoped
+    c02.rule_d(Scoped(ck, 'C02.'), F)
     PA = panicfree.run_inventory(ck, F, rs, mech, scope=('decoder::', 'parser::', 'types::', '<types::'), floors={'sites': 300, 'functions': 150})
     c01_mech.m8_error_discipline(ck, F, PA.reach)
     panicfree.run_termination(ck, F, PA, 25)
